@@ -142,7 +142,8 @@ example : (St.init exW).snap = (St.init exW).snap.toSt.snap := rfl
     LAST `created` or `set` event on `K` not followed by an invalidation of `K`; and when it was a `created` event with
     record `c`, the value equals `sectionValue` – the output of the **uncached** section `c.h` with body `c.body` through
     its filter – evaluated in the scope `c.env` and render context `c.ctx` of that creation, from the store / flags /
-    memos `c.pre` in force when the back end called the creation function, for the template that created it
+    memos `c.pre` in force when the back end called the creation function, in the render of template `c.rtid`; the entry
+    itself is owned by the template that DECLARES the section (`Hdr.home`), which under `<%inherit>` need not be the rendered one
     (see `evCreation` in `Cache/Spec.lean`).  Renders in other contexts between the creation and the hit do not matter. -/
 theorem replays_creation_output_trace (w : World R) (hist : List Op) :
     traceAllP w (evCreation w) (runHist w hist).trace :=
